@@ -20,6 +20,27 @@ func c09Cfg() *DeclCfg {
 	}
 }
 
+// c09CfgFor biases the declaration towards shapes in which the fault applies.
+func c09CfgFor(fault string) *DeclCfg {
+	cfg := c09Cfg()
+	switch fault {
+	case "help", "help-in-cluster":
+		cfg.ParserOpts = []flags.Options{flags.HelpFlag, flags.HelpFlag | flags.PassDoubleDash, flags.HelpFlag | flags.PassDoubleDash | flags.PassAfterNonOption}
+		cfg.Types = append(cfg.Types, TypeSpec{K: KBool}, TypeSpec{K: KBool})
+	case "bad-choice":
+		cfg.PChoices = 60
+	case "drop-required-option":
+		cfg.PRequired = 60
+	case "drop-required-positional":
+		cfg.PPos, cfg.PPosReq, cfg.PCmds = 90, 90, 40
+	case "unknown-command", "missing-command":
+		cfg.PSubOptional, cfg.PCmds, cfg.PPos = 0, 100, 10
+	case "flag-with-argument":
+		cfg.Types = append(cfg.Types, TypeSpec{K: KBool}, TypeSpec{K: KBool, W: WSlice})
+	}
+	return cfg
+}
+
 var c09Faults = []string{"none", "unknown-option", "bad-value", "missing-argument", "flag-with-argument", "drop-required-option", "drop-required-positional", "unknown-command", "missing-command", "help", "help-in-cluster", "bad-choice", "exec-error", "completion"}
 
 type hostHandlers struct {
@@ -30,7 +51,7 @@ func c09Run(c *Ctx) {
 	r := c.R
 	fault := c09Faults[c.K%int64(len(c09Faults))]
 	withHandler := (c.K/int64(len(c09Faults)))%2 == 1
-	d := GenDecl(c.Sub("d"), c09Cfg())
+	d := GenDecl(c.Sub("d"), c09CfgFor(fault))
 	if fault == "exec-error" {
 		for _, cm := range d.Cmds[1:] {
 			cm.ExecErr = true
